@@ -180,6 +180,15 @@ func runCheck(cfg checkCfg) int {
 			for _, e := range uniq(r.Errors) {
 				fmt.Printf("UNDECIDED %s: %s\n", r.Key, e)
 			}
+			// A function whose contract cannot be applied to its code any more (a renamed parameter,
+			// a call the contract counts that is gone, a construct outside the subset) has none of
+			// its obligations generated: that is reported as ONE failed obligation of its own - on
+			// the unchanged tree every function under contract is decided, so this obligation passes
+			// there - and never as silence.
+			why := strings.Join(uniq(r.Errors), "; ")
+			allVCs = append(allVCs, &VC{Func: r.Key, Name: "contract:applies-to-the-code", Kind: "contract", Goal: "false",
+				Result: "unknown", Solver: "none", Model: "the obligations of this function could not be generated: " + why,
+				Note: "the contract of " + r.Key + " can be applied to its code [" + truncate(why, 300) + "]", Props: []string{cfg.Prop}})
 			continue
 		}
 		for _, vc := range r.VCs {
@@ -257,6 +266,7 @@ func runCheck(cfg checkCfg) int {
 		first    *VC
 	}
 	covBy := map[string]*covStat{}
+	var unreachable []*VC
 	for _, vc := range allVCs {
 		if vc.Kind == "cover" {
 			covers++
@@ -271,6 +281,7 @@ func runCheck(cfg checkCfg) int {
 			cs.n++
 			if vc.Result == "unsat" {
 				cs.unsat++
+				unreachable = append(unreachable, vc)
 			}
 			continue
 		}
@@ -306,6 +317,42 @@ func runCheck(cfg checkCfg) int {
 			v.Kind, v.Name = "vacuity", "vacuity:no-return-reachable"
 			obs[full] = &ObResult{Name: full, Kind: "vacuity", Result: "failed", Note: "no return of the function is reachable under its contract and the contracts of its callees", VCs: cs.n, failing: []*VC{&v}}
 			order = append(order, full)
+		}
+	}
+	// vacuity guard: a return that the solver PROVES unreachable under the contracts is either dead
+	// code (listed, with the reason, in contracts/unreachable_ok.txt) or the sign of a contradiction
+	// in the hypotheses of that path - every obligation on it would then pass vacuously
+	okUnreach := loadUnreachableOK(filepath.Join(cfg.VerifDir, "contracts", "unreachable_ok.txt"))
+	var unreachNames []string
+	reach := map[string]bool{} // a return is reachable if ONE of the paths to it is not refuted
+	for _, vc := range allVCs {
+		if vc.Kind == "cover" && vc.Result != "unsat" {
+			reach[vc.Func+"#"+vc.Name] = true
+		}
+	}
+	seenUn := map[string]bool{}
+	for _, vc := range unreachable {
+		full := vc.Func + "#" + vc.Name
+		if reach[full] || seenUn[full] {
+			continue
+		}
+		seenUn[full] = true
+		unreachNames = append(unreachNames, full)
+		if okUnreach[full] {
+			continue
+		}
+		v := *vc
+		v.Kind, v.Name = "vacuity", "vacuity:"+vc.Name+"-unreachable"
+		full = vc.Func + "#" + v.Name
+		if obs[full] == nil {
+			obs[full] = &ObResult{Name: full, Kind: "vacuity", Result: "failed", Note: "this return is provably unreachable under the contracts (a contradiction among the hypotheses of its path, or dead code not listed in contracts/unreachable_ok.txt)", VCs: 1, failing: []*VC{&v}}
+			order = append(order, full)
+		}
+	}
+	sort.Strings(unreachNames)
+	if cfg.Verbose {
+		for _, n := range unreachNames {
+			fmt.Println("  unreachable", n)
 		}
 	}
 	sort.Strings(order)
@@ -521,6 +568,24 @@ func evidenceDir(cfg checkCfg) string {
 		return filepath.Join(os.TempDir(), "qedvc-partial-evidence")
 	}
 	return filepath.Join(cfg.VerifDir, "evidence")
+}
+
+// loadUnreachableOK reads the committed list of returns that are known to be dead code under
+// the contracts: one `func#cover:return@k  reason` per line, # comments.
+func loadUnreachableOK(path string) map[string]bool {
+	out := map[string]bool{}
+	b, err := os.ReadFile(path)
+	if err != nil {
+		return out
+	}
+	for _, l := range strings.Split(string(b), "\n") {
+		l = strings.TrimSpace(l)
+		if l == "" || strings.HasPrefix(l, "//") {
+			continue
+		}
+		out[strings.Fields(l)[0]] = true
+	}
+	return out
 }
 
 func writeReplayFile(dir, prop, ob string, vc *VC, rr *ReplayResult, reason string) string {
